@@ -575,7 +575,7 @@ func C18(c *core.Ctx) {
 	c.Count("blocking_selects", nsel)
 	c.Count("bare_receives", nbare)
 	c.Floor("B3/selects", nsel, 30)
-	c.Floor("B3/bare-receives", nbare, 6)
+	c.Floor("B3/bare-receives", nbare, 5)
 	n := droppedInternalErrors(c, p, "B2/call")
 	c.Count("internal_error_call_sites", n)
 	c.Floor("B2/call", n, 40)
